@@ -486,7 +486,13 @@ pub fn run_history(rng: &mut Rng, cfg: &HistCfg, dir: &Path, tag: &str) -> HistR
         r -= sim.w_fork;
         if r < sim.w_msg {
             let m = *rng.pick(&actors);
-            let rumor_ts = w.base_ts + rng.below(sim.rumor_ts_values.max(1) as usize) as u64;
+            // one rumor in twelve is post-dated (a sender whose clock runs ahead): the timestamp the
+            // sender gave it is what every client has to store
+            let rumor_ts = if rng.chance(8) {
+                std::time::SystemTime::now().duration_since(std::time::UNIX_EPOCH).map(|d| d.as_secs()).unwrap_or(w.base_ts) + 3600 + rng.below(3) as u64
+            } else {
+                w.base_ts + rng.below(sim.rumor_ts_values.max(1) as usize) as u64
+            };
             if w.act_message(m, g, rumor_ts).is_some() {
                 schedule.push(Step::Msg { m, g });
                 step_monitors(&w, m, &mut mon, "create_message");
